@@ -122,11 +122,11 @@ func limitGuard(conds []engine.Cond, counter, max *types.Var, amount ssa.Value) 
 }
 
 func runC13(c *engine.Ctx) {
-	r1 := c.Rule("R1", "every counter increase is dominated by both limit tests on the same amount", 4)
-	r2 := c.Rule("R2", "global and per-peer counters change together, by the same amount", 3)
-	r3 := c.Rule("R3", "every decrease is clamped (counter >= amount, else zero); the global counter is reduced by the clamped amount", 3)
+	r1 := c.Rule("R1", "every counter increase is dominated by both limit tests on the same amount", 2)
+	r2 := c.Rule("R2", "global and per-peer counters change together, by the same amount", 1)
+	r3 := c.Rule("R3", "every decrease is clamped (counter >= amount, else zero); the global counter is reduced by the clamped amount", 2)
 	r4 := c.Rule("R4", "peer release subtracts the peer's total from the global total and removes the peer from map and heap", 1)
-	r5 := c.Rule("R5", "every access to allocator state holds allocLk", 20)
+	r5 := c.Rule("R5", "every access to allocator state holds allocLk", 8)
 	a := loadAlloc(c, r1)
 	if a == nil {
 		return
